@@ -381,6 +381,7 @@ class StereoMolGraph(MolGraph):
         :return: Returns MolGraph
         """
 
+        mol_graphs = tuple(mol_graphs)  # iterated twice
         graph = cls(super().compose(mol_graphs))
         for mol_graph in mol_graphs:
             graph._atom_stereo.update(cls(mol_graph)._atom_stereo)
